@@ -37,6 +37,9 @@ func init() {
 			{Name: "callargs", Run: runCallArgs},
 			{Name: "typeset", Run: runTypeset},
 			{Name: "slicelen", Run: runSliceLen},
+			{Name: "setnames", Run: runSetNames},
+			{Name: "sliceref", Run: brig.RunSliceRef},
+			{Name: "mapkeys", Run: brig.RunMapKeys},
 			{Name: "kindtwins", Run: func(r *engine.Run) { brig.RunKindTwins(r, false) }},
 		},
 		Assumptions: []string{
